@@ -682,9 +682,12 @@ func regexExpressionToBloomFieldExpression(expression *RegexExpression) *BloomEx
 		children := make([]BloomExpression, 0, len(expression.Children))
 		for i := range expression.Children {
 			child := regexExpressionToBloomFieldExpression(&expression.Children[i])
-			if child != nil {
-				children = append(children, *child)
+			if child == nil {
+				// A child without a guard is unconstrained (constant true), so
+				// the whole OR is: no field guard can be derived from it.
+				return nil
 			}
+			children = append(children, *child)
 		}
 		return &BloomExpression{
 			ExpressionType: BloomExpressionOr,
